@@ -77,6 +77,9 @@ func checkClause(prog *Program, fi *FuncInfo, cl *Clause, pos token.Pos, ghostTy
 	if cl.Kind == "decreases" {
 		resType = "int"
 	}
+	if cl.Kind == "hint" {
+		resType = "any"
+	}
 	if cl.Kind == "yields" {
 		resType = "any"
 	}
@@ -523,7 +526,7 @@ func VerifyFunc(w *World, prog *Program, fi *FuncInfo) *FuncResult {
 		}
 		sort.Slice(ls, func(i, j int) bool { return ls[i].ord < ls[j].ord })
 		for _, l := range ls {
-			if fi.Contr != nil && (fi.Contr.Has("ensures", l.ord) || fi.Contr.Has("requires", l.ord) || fi.Contr.Has("yields", l.ord) || fi.Contr.Has("nopanic", l.ord) || fi.Contr.Has("noglobals", l.ord)) {
+			if fi.Contr != nil && (fi.Contr.Has("ensures", l.ord) || fi.Contr.Has("yields", l.ord) || fi.Contr.Has("nopanic", l.ord) || fi.Contr.Has("noglobals", l.ord)) {
 				fv.verifyUnit(l.lit)
 			}
 		}
@@ -630,6 +633,10 @@ func (fv *FuncVerifier) verifyUnit(lit *ast.FuncLit) {
 				st.vars[o] = v
 				st.Assume(fv.typeInv(v, o.Type()))
 				st.Assume(fv.seqElemInv(v, o.Type()))
+				if v.Sort == SRef {
+					al := fv.heapGet(st, "$ghost:alloc", "(Array Ref Bool)")
+					st.Assume(Or(App(SBool, "=", v, Null), App(SBool, "select", al, v)))
+				}
 				fv.entryParams[o] = v
 			}
 		}
@@ -774,6 +781,9 @@ func (fv *FuncVerifier) verifyUnit(lit *ast.FuncLit) {
 				}
 			}
 			retIdx++
+			if lit == nil {
+				fv.frameObligations(s2, site)
+			}
 			fv.obls = append(fv.obls, &Obligation{Func: fi.Key, Class: "V", Kind: "exit-reachable", Site: site, Pos: fv.pos(site),
 				Assume: append([]Term(nil), s2.pc...), Goal: False, Desc: "some return path is feasible under the contract's assumptions (vacuity guard; any path suffices)", consts: fv.consts, Cover: true,
 				Name: fmt.Sprintf("%s#V.exit-reachable[lit%d]", fi.Key, fv.curLit)})
@@ -810,4 +820,142 @@ func litPrefix(n int) string {
 		return ""
 	}
 	return fmt.Sprintf("lit%d,", n)
+}
+
+// frameObligations: for a function with `pure` or `assigns`, every heap cell that existed on entry and is not
+// named by an assigns target is unchanged at this return; map parameters not named are unchanged.
+func (fv *FuncVerifier) frameObligations(s2 *State, site token.Pos) {
+	c := fv.fn.Contr
+	if c == nil || !(c.Has("pure", 0) || c.Has("assigns", 0)) {
+		return
+	}
+	star := false
+	type target struct {
+		key string
+		ref Term
+	}
+	var targets []target
+	paramTargets := map[string]bool{}
+	for _, cl := range c.Get("assigns", 0, 0) {
+		for _, tgt := range splitTopLevel(cl.Text, ',') {
+			tgt = strings.TrimSpace(tgt)
+			switch tgt {
+			case "", "nothing":
+				continue
+			case "*":
+				star = true
+				continue
+			}
+			parts := strings.Split(tgt, ".")
+			if len(parts) == 1 {
+				paramTargets[parts[0]] = true
+				continue
+			}
+			var pobj types.Object
+			for o := range fv.entryParams {
+				if o.Name() == parts[0] {
+					pobj = o
+				}
+			}
+			if pobj == nil {
+				fv.bindErrors = append(fv.bindErrors, cl.Pos+": assigns target "+tgt+" does not start with a parameter")
+				continue
+			}
+			ref := fv.entryParams[pobj]
+			ct := pobj.Type()
+			for k := 1; k < len(parts); k++ {
+				p, ok := ct.Underlying().(*types.Pointer)
+				if !ok {
+					fv.bindErrors = append(fv.bindErrors, cl.Pos+": assigns target "+tgt+": not a pointer path")
+					break
+				}
+				stt, _ := p.Elem().Underlying().(*types.Struct)
+				var fld *types.Var
+				for j := 0; stt != nil && j < stt.NumFields(); j++ {
+					if stt.Field(j).Name() == parts[k] {
+						fld = stt.Field(j)
+					}
+				}
+				if fld == nil {
+					fv.bindErrors = append(fv.bindErrors, cl.Pos+": assigns target "+tgt+": no field "+parts[k])
+					break
+				}
+				key := fieldKey(ct, fld.Name())
+				if k == len(parts)-1 {
+					targets = append(targets, target{key, ref})
+				} else {
+					ref = fv.readField(fv.entry, ref, key, fv.sortOf(fld.Type()))
+					ct = fld.Type()
+				}
+			}
+		}
+	}
+	if star {
+		return
+	}
+	mk := func(name string, goal Term, desc string) {
+		fv.obls = append(fv.obls, &Obligation{Func: fv.fn.Key, Class: "R", Kind: "frame", Site: site, Pos: fv.pos(site),
+			Assume: append([]Term(nil), s2.pc...), Goal: goal, Desc: desc, consts: fv.consts, Name: fv.fn.Key + "#R.frame[" + name + "]"})
+	}
+	if s2.epoch != fv.entry.epoch {
+		mk("*", False, "an effect with unknown footprint happened on this path (call without contract / unknown external), but the contract promises a frame")
+		return
+	}
+	al0 := fv.heapGet(fv.entry, "$ghost:alloc", "(Array Ref Bool)")
+	keys := map[string]bool{}
+	for k := range s2.heap {
+		keys[k] = true
+	}
+	for k := range s2.hmark {
+		keys[k] = true
+	}
+	var ks []string
+	for k := range keys {
+		if strings.HasPrefix(k, "$ghost:") {
+			continue
+		}
+		ks = append(ks, k)
+	}
+	sort.Strings(ks)
+	for _, k := range ks {
+		hf, ok := s2.heap[k]
+		var srt Sort
+		if ok {
+			srt = hf.Sort
+		} else if h0, ok0 := fv.entry.heap[k]; ok0 {
+			srt = h0.Sort
+		} else {
+			continue
+		}
+		hf = fv.heapGet(s2, k, srt)
+		h0 := fv.heapGet(fv.entry, k, srt)
+		if hf.S == h0.S {
+			continue
+		}
+		if strings.HasPrefix(k, "$global:") {
+			mk(k, App(SBool, "=", hf, h0), "package-level variable "+strings.TrimPrefix(k, "$global:")+" is unchanged (not named in assigns)")
+			continue
+		}
+		if !strings.HasPrefix(string(srt), "(Array Ref ") {
+			continue
+		}
+		var excl []Term
+		for _, t := range targets {
+			if t.key == k {
+				excl = append(excl, Not(App(SBool, "=", Term{"r$", SRef}, t.ref)))
+			}
+		}
+		cond := And(append([]Term{App(SBool, "select", al0, Term{"r$", SRef})}, excl...)...)
+		goal := T(SBool, "(forall ((r$ Ref)) (=> %s (= (select %s r$) (select %s r$))))", cond.S, hf.S, h0.S)
+		mk(k, goal, "heap field "+k+" of every object that existed on entry and is not named in assigns is unchanged")
+	}
+	// map parameters are references: unchanged unless named
+	for o, v0 := range fv.entryParams {
+		if _, isMap := o.Type().Underlying().(*types.Map); !isMap || paramTargets[o.Name()] {
+			continue
+		}
+		if vf, ok := s2.vars[o]; ok && vf.S != v0.S {
+			mk("param:"+o.Name(), App(SBool, "=", vf, v0), "map parameter "+o.Name()+" is unchanged (not named in assigns)")
+		}
+	}
 }
